@@ -265,7 +265,7 @@ var recRecord = ev.New(prop, "records",
 	Require("many-sets", "big-nal", "lsm", "ext", "sps31", "pps255")
 
 func TestRecords(t *testing.T) {
-	ev.Rapid(t, "records", 4000, 300000, func(t *rapid.T) {
+	ev.Rapid(t, "records", 4000, 1500000, func(t *rapid.T) {
 		c := RCase{Profile: rapid.Uint8().Draw(t, "profile"), Compat: rapid.Uint8().Draw(t, "compat"), Level: rapid.Uint8().Draw(t, "level"), LSM: uint8(rapid.IntRange(0, 3).Draw(t, "lsm"))}
 		if rapid.Bool().Draw(t, "profk") {
 			c.Profile = rapid.SampledFrom([]uint8{66, 77, 88, 100, 110, 122, 144, 244}).Draw(t, "profc")
@@ -372,7 +372,7 @@ var recSample = ev.New(prop, "samples",
 	Require("multi", "boundary", "lsm0", "lsm1", "lsm2", "lsm3")
 
 func TestSamples(t *testing.T) {
-	ev.Rapid(t, "samples", 5000, 300000, func(t *rapid.T) {
+	ev.Rapid(t, "samples", 5000, 1500000, func(t *rapid.T) {
 		c := SCase{LSM: uint8(rapid.IntRange(0, 3).Draw(t, "lsm"))}
 		n := rapid.IntRange(0, 8).Draw(t, "n")
 		boundary := false
@@ -396,7 +396,7 @@ func TestSamples(t *testing.T) {
 			} else {
 				u.Len = rapid.IntRange(0, 200).Draw(t, "lenu")
 			}
-			if c.LSM >= 2 && ev.Thorough() && rapid.IntRange(0, 200).Draw(t, "huge") == 0 {
+			if c.LSM >= 2 && ev.Thorough() && rapid.IntRange(0, 20000).Draw(t, "huge") == 0 {
 				u.Len = 1 << 24
 				if c.LSM == 2 {
 					u.Len = 1<<24 - 2
